@@ -1,5 +1,7 @@
 import Bifrost.Model.Dispatch
 import Bifrost.Lemmas.DispatchLookup
+import Bifrost.Lemmas.DispatchLookupErr
+import Bifrost.Gen.Directives
 /-!
 C36 — Remote RPC lookups report service availability faithfully.
 
@@ -96,6 +98,178 @@ theorem componentID_empty : marshalComponentID ⟨[], []⟩ = [] ∧ unmarshalCo
   · unfold unmarshalComponentID
     rw [B58.decode_nil]
 
+/-! ### resolver errors: the end of the stream
+
+`runSync` is the stream a client that keeps up sees: after every callback the send loop runs its
+test `currIdle && currResErr != nil && currResErr != context.Canceled` and then sends the queue. -/
+
+/-- Without resolver errors the stream never ends by itself and carries exactly `run`'s reports
+(so every statement above is a statement about the stream). -/
+theorem sync_no_errors (evs : List Ev) : runSync {} (evs.map .ev) = ((run evs).2, none) := by
+  have := runSync_append_noerr evs {} [] rfl
+  simpa [runSync, run] using this
+
+/-- Whatever errors occur: up to its end the stream carries exactly the availability / idle
+changes of the history (a prefix of them once it has ended). -/
+theorem sync_reports (evs : List EvE) :
+    ((runSync {} evs).2 = none → (runSync {} evs).1 = (run (evs.map EvE.toEv)).2) ∧
+    (runSync {} evs).1 <+: (run (evs.map EvE.toEv)).2 :=
+  runSync_reports evs {}
+
+/-- The first resolver error handed over together with "idle" ends the stream with exactly that
+error — the client is told — after exactly the reports of the history before it; the idle report
+of that same callback and everything later is not sent. -/
+theorem error_reported (pre : List Ev) (errs : List (Option RErr)) (n : Nat) (post : List EvE)
+    (h : firstErr errs = some (.other n)) :
+    runSync {} (pre.map .ev ++ .idleErrs true errs :: post) = ((run pre).2, some (.other n)) := by
+  rw [runSync_append_noerr pre {} _ rfl]
+  have hf : fatal (stepE ⟨(runFrom ({} : StE).st pre).1, none⟩ (.idleErrs true errs)).1 = some (.other n) := by
+    apply fatal_other
+    · simp only [stepE]
+      exact step_idle_resIdle _ true
+    · simp [stepE, h]
+  rw [runSync]
+  simp only [hf, List.append_nil]
+  rfl
+
+/-- An error handed over while the directive is busy is kept and ends the stream as soon as the
+directive goes idle, after exactly the reports up to there. -/
+theorem busy_error_reported_when_idle (pre mid : List Ev) (errs : List (Option RErr)) (n : Nat)
+    (post : List EvE) (h : firstErr errs = some (.other n)) (hmid : ∀ e ∈ mid, e ≠ Ev.idle true) :
+    runSync {} (pre.map .ev ++ .idleErrs false errs :: (mid.map .ev ++ .ev (.idle true) :: post)) =
+      ((run (pre ++ .idle false :: mid)).2, some (.other n)) := by
+  rw [runSync_append_noerr pre {} _ rfl]
+  generalize hs0 : (runFrom ({} : StE).st pre) = r0
+  -- the callback carrying the error
+  rw [runSync]
+  have hb1 : (stepE ⟨r0.1, none⟩ (.idleErrs false errs)).1.st.resIdle = false := by
+    simp only [stepE]
+    exact step_idle_resIdle _ false
+  have he1 : (stepE ⟨r0.1, none⟩ (.idleErrs false errs)).1.resErr = some (.other n) := by
+    simp [stepE, h]
+  simp only [fatal_none_of_busy _ hb1]
+  -- the busy stretch
+  obtain ⟨hb2, hrun⟩ := runSync_append_busy mid (stepE ⟨r0.1, none⟩ (.idleErrs false errs)).1
+    (.ev (.idle true) :: post) hb1 hmid
+  rw [hrun]
+  -- the callback that goes idle
+  have hf : fatal (stepE ⟨(runFrom (stepE ⟨r0.1, none⟩ (.idleErrs false errs)).1.st mid).1,
+      (stepE ⟨r0.1, none⟩ (.idleErrs false errs)).1.resErr⟩ (.ev (.idle true))).1 = some (.other n) := by
+    apply fatal_other
+    · rw [stepE_ev]
+      exact step_idle_resIdle _ true
+    · rw [stepE_ev]
+      exact he1
+  rw [runSync]
+  simp only [hf, List.append_nil]
+  -- reassemble the reports
+  have hrn : (run (pre ++ .idle false :: mid)).2 =
+      r0.2 ++ ((step r0.1 (.idle false)).2 ++ (runFrom (step r0.1 (.idle false)).1 mid).2) := by
+    unfold run
+    rw [runFrom_append, runFrom_cons]
+    simp only
+    have : ({} : St) = ({} : StE).st := rfl
+    rw [this, hs0]
+  rw [hrn]
+  have hst := stepE_toEv ⟨r0.1, none⟩ (.idleErrs false errs)
+  simp only [EvE.toEv] at hst
+  rw [hst.1, hst.2]
+
+/-- What the code does with `context.Canceled`: it is not reported (the stream goes on), and since
+`resErr` is only ever set once, no later resolver error ends the stream either. (Outside the
+property's text, which speaks of availability and idle reports only; recorded as an observation.) -/
+theorem canceled_masks_later_errors (pre : List Ev) (b : Bool) (errs : List (Option RErr)) (rest : List EvE)
+    (h : firstErr errs = some .canceled) :
+    (runSync {} (pre.map .ev ++ .idleErrs b errs :: rest)).2 = none := by
+  rw [runSync_append_noerr pre {} _ rfl]
+  simp only
+  have hk : (stepE ⟨(runFrom ({} : StE).st pre).1, none⟩ (.idleErrs b errs)).1.resErr = some .canceled := by
+    simp [stepE, h]
+  rw [runSync]
+  simp only [fatal_none_of_canceled _ hk]
+  exact runSync_canceled rest _ hk
+
+/-! ### the directive a lookup request becomes -/
+
+/-- The directive the server places on the bus carries exactly the request's service ID and server
+ID (no `serverIdCb`) … -/
+theorem placed_exactly_requested (r : Req) : lookupPlaced none r = some (r.serviceId, r.serverId) := rfl
+
+/-- … or the service ID and the callback's rewriting of the server ID; a failing callback places
+nothing. -/
+theorem placed_with_callback (f : Bytes → Option Bytes) (r : Req) :
+    lookupPlaced (some f) r = (f r.serverId).map (fun srv => (r.serviceId, srv)) := rfl
+
+/-- Lookups of different requests are different directives for the bus: they are never
+de-duplicated into one another (`isEquivalent` is regenerated from rpc/lookup-rpc-service.go). -/
+theorem lookups_not_merged (r1 r2 : Req) (h : r1 ≠ r2) (d1 d2 : Bytes × Bytes)
+    (h1 : lookupPlaced none r1 = some d1) (h2 : lookupPlaced none r2 = some d2) :
+    Gen.Directives.LookupRpcService.isEquivalent ⟨d1.1, d1.2⟩ ⟨d2.1, d2.2⟩ = false := by
+  cases r1; cases r2
+  simp only [lookupPlaced, applyServerIdCb, Option.map_some, Option.some.injEq] at h1 h2
+  subst h1 h2
+  cases hb : Gen.Directives.LookupRpcService.isEquivalent _ _
+  · rfl
+  · simp only [Gen.Directives.LookupRpcService.isEquivalent, Bool.and_eq_true, beq_iff_eq] at hb
+    exact absurd (by rw [hb.1, hb.2]) h
+
+/-- `RequestFromDirective ∘ ToDirective = id` and back. -/
+theorem request_directive_roundtrip (r : Req) : requestFromDirective r.toDirective = r := rfl
+
+theorem directive_request_roundtrip (d : Bytes × Bytes) : (requestFromDirective d).toDirective = d := rfl
+
+/-- `Validate` accepts exactly the requests with a service ID (the server ID may be empty). -/
+theorem validate_iff (r : Req) : r.validate = true ↔ r.serviceId ≠ [] := by
+  cases r with
+  | mk sid srv => cases sid <;> simp [Req.validate]
+
+/-- Every request `Validate` accepts survives the component-ID round trip. -/
+theorem valid_request_roundtrips (r : Req) (hv : r.validate = true)
+    (h1 : r.serviceId.length < 2 ^ 63) (h2 : r.serverId.length < 2 ^ 63) :
+    unmarshalComponentID (marshalComponentID r) = some (r, []) :=
+  componentID_roundtrip r (Or.inl ((validate_iff r).mp hv)) h1 h2
+
+/-! ### CallRpcService -/
+
+/-- For the component ID of a valid request the call is served by the invokers of exactly that
+(service ID, rewritten server ID) if the bus has any, and fails otherwise. -/
+theorem call_dispatch_exact (cb : Option (Bytes → Option Bytes)) (provided : Bytes → Bytes → Bool) (r : Req)
+    (hv : r.validate = true) (h1 : r.serviceId.length < 2 ^ 63) (h2 : r.serverId.length < 2 ^ 63) :
+    callRpcService cb provided (marshalComponentID r) =
+      match applyServerIdCb cb r.serverId with
+      | none => .errServerId
+      | some srv => if provided r.serviceId srv then .ok r.serviceId srv else .errNoServer := by
+  unfold callRpcService
+  rw [valid_request_roundtrips r hv h1 h2]
+  simp only [hv, Bool.not_true, Bool.false_eq_true, ↓reduceIte]
+  cases applyServerIdCb cb r.serverId <;> rfl
+
+/-- Whatever text arrives as component ID: a call is only ever served by invokers of the service ID
+it decodes to (under the rewritten server ID), and only if that request is valid. -/
+theorem call_never_other (cb : Option (Bytes → Option Bytes)) (provided : Bytes → Bytes → Bool) (cid sid srv : Bytes)
+    (h : callRpcService cb provided cid = .ok sid srv) :
+    ∃ r unk, unmarshalComponentID cid = some (r, unk) ∧ r.validate = true ∧ r.serviceId = sid ∧
+      applyServerIdCb cb r.serverId = some srv ∧ provided sid srv = true := by
+  unfold callRpcService at h
+  cases hu : unmarshalComponentID cid with
+  | none => simp [hu] at h
+  | some p =>
+    obtain ⟨r, unk⟩ := p
+    simp only [hu] at h
+    cases hv : r.validate with
+    | false => simp [hv] at h
+    | true =>
+      simp only [hv, Bool.not_true, Bool.false_eq_true, ↓reduceIte] at h
+      cases ha : applyServerIdCb cb r.serverId with
+      | none => simp [ha] at h
+      | some s =>
+        simp only [ha] at h
+        cases hp : provided r.serviceId s with
+        | false => simp [hp] at h
+        | true =>
+          simp only [hp, ↓reduceIte, CallOut.ok.injEq] at h
+          exact ⟨r, unk, rfl, hv, h.1, by rw [← h.2]; exact ha, by rw [← h.1, ← h.2]; exact hp⟩
+
 /-! ### non-vacuity -/
 
 /-- The contract is satisfiable by a history that exercises every kind of report. -/
@@ -108,5 +282,24 @@ example : Fresh [] [.added 1 true, .idle true, .added 2 true, .removed 1, .remov
 
 example : ∃ r : Req, (r.serviceId ≠ [] ∨ r.serverId ≠ []) ∧ r.serviceId.length < 2 ^ 63 ∧ r.serverId.length < 2 ^ 63 :=
   ⟨⟨[97], []⟩, Or.inl (by simp), by simp, by simp⟩
+
+/-- An idle-with-error history: provider, then "idle" with error 7 — the client got `Exists` and
+then the error; "busy" with error 7, provider, "idle" — `Exists`, then the error; `Canceled` then a
+real error — the stream goes on and reports the idle changes. -/
+example : runSync {} [.ev (.added 1 true), .idleErrs true [none, some (.other 7)], .ev (.removed 1)] =
+      ([Msg.mkExists], some (.other 7)) ∧
+    runSync {} [.idleErrs false [some (.other 7)], .ev (.added 1 true), .ev (.idle true)] =
+      ([Msg.mkExists], some (.other 7)) ∧
+    runSync {} [.idleErrs true [some .canceled], .ev (.idle false), .idleErrs true [some (.other 1)]] =
+      ([Msg.mkIdle true, Msg.mkIdle false, Msg.mkIdle true], none) := by decide
+
+/-- `call_dispatch_exact` / `call_never_other` are not vacuous: a served and an unserved call. -/
+example : callRpcService none (fun sid _ => sid == [97]) (marshalComponentID ⟨[97], [98]⟩) = .ok [97] [98] ∧
+    callRpcService none (fun sid _ => sid == [97]) (marshalComponentID ⟨[99], [98]⟩) = .errNoServer ∧
+    callRpcService none (fun _ _ => true) (marshalComponentID ⟨[], [98]⟩) = .errInvalid ∧
+    callRpcService (some fun _ => none) (fun _ _ => true) (marshalComponentID ⟨[97], []⟩) = .errServerId := by decide
+
+example : ∃ r1 r2 : Req, r1 ≠ r2 ∧ lookupPlaced none r1 = some ([115], []) ∧ lookupPlaced none r2 = some ([115], [47]) :=
+  ⟨⟨[115], []⟩, ⟨[115], [47]⟩, by simp, rfl, rfl⟩
 
 end Bifrost.Props.C36
